@@ -82,10 +82,17 @@ class EchoServer(UDSServer):
     async def respond_after_default(self, request: service.UDSRequest) -> service.UDSResponse | None:
         return None
 
+    # virtual-time runs: the ECU needs time for some requests and none for others (decided by the request's first
+    # byte), so that a loop which does not finish one request before it serves the next shows in the reply order
+    uneven = False
+
     async def respond(self, request: service.UDSRequest) -> Any:  # type: ignore[override]
+        raw = self.current_raw
         if self.on_respond is not None:
             self.on_respond()
-        return _Resp(echo_reply(self.current_raw))
+        if self.uneven and raw and raw[0] % 2 == 0:
+            await asyncio.sleep(0.3)
+        return _Resp(echo_reply(raw))
 
 
 class RecordingServerTransport(TCPUDSServerTransport):
@@ -181,11 +188,19 @@ class Rec:
         self.closed = True
         self.ev.append(E("Close"))
 
+    # server loops: the loop may already wait for the next line while a request is still being served (read-ahead);
+    # what counts is the sequence of messages handed to the UDS layer, so a second begin is not an event of its own
+    read_ahead_ok = False
+
     def begin(self, to: int) -> None:
+        if self.read_ahead_ok and self.reading:
+            return
         self.reading = True
         self.ev.append(E("ReadBegin", to=to))
 
     def end(self, r: str, data: bytes = b"") -> None:
+        if self.read_ahead_ok and not self.reading:
+            self.ev.append(E("ReadBegin", to=0))
         self.reading = False
         if r == "Msg":
             self.rb.append(bytes(data))
@@ -343,6 +358,8 @@ def run_reader(kind: str, contents: list[bytes], chunks: list[bytes], plan: list
             contents_seen.append(raw)
 
         srv = RecordingServerTransport(on_request)
+        srv.server.uneven = True  # type: ignore[attr-defined]
+        rec.read_ahead_ok = True
         wire = streams.Wire()
         srv_wire.append(wire)
         wire.reader = asyncio.StreamReader(limit=2 ** 16)
@@ -567,6 +584,7 @@ async def real_server_run(kind: str, contents: list[bytes], chunks: list[bytes],
     got = [0]
     eof = [False]
     finished = asyncio.Event()
+    rec.read_ahead_ok = True
     srv = RecordingServerTransport(lambda raw: rec.end("Msg", raw))
 
     async def handler(r: asyncio.StreamReader, w: asyncio.StreamWriter) -> None:
@@ -640,6 +658,7 @@ async def real_end_to_end(kind: str, msgs: list[bytes], mode: str, tmpdir: str, 
     (server write -> client read)."""
     up = Rec(msgs)
     down = Rec([echo_reply(m) for m in msgs])
+    up.read_ahead_ok = True
     srv = RecordingServerTransport(lambda raw: up.end("Msg", raw))
     finished = asyncio.Event()
 
